@@ -1,6 +1,6 @@
 import typing
 from collections.abc import Collection, Hashable, Mapping
-from dataclasses import dataclass, replace
+from dataclasses import InitVar, dataclass, replace
 from itertools import chain
 from typing import Callable, Generic, TypeVar
 
@@ -80,6 +80,10 @@ class GenericResolver(Generic[K, M]):
         return result
 
     def _parametrize_by_dict(self, type_var_to_actual, tp: TypeHint) -> TypeHint:
+        if isinstance(tp, InitVar):
+            # ``InitVar[T]`` is an instance without ``__parameters__``, it can not be subscribed again
+            return InitVar[self._parametrize_by_dict(type_var_to_actual, tp.type)]  # type: ignore[misc]
+
         if tp in type_var_to_actual:
             return type_var_to_actual[tp][0]
 
@@ -88,10 +92,15 @@ class GenericResolver(Generic[K, M]):
             return tp
         return tp[tuple(chain.from_iterable(type_var_to_actual[type_var] for type_var in params))]
 
+    def _has_type_vars(self, tp: TypeHint) -> bool:
+        if isinstance(tp, InitVar):
+            return self._has_type_vars(tp.type)
+        return bool(get_type_vars_of_parametrized(tp)) or isinstance(tp, TypeVar)
+
     def _get_members_by_parents(self, tp) -> MembersStorage[K, M]:
         members_storage = self._raw_members_getter(tp)
         if not any(
-            get_type_vars_of_parametrized(tp) or isinstance(tp, TypeVar)
+            self._has_type_vars(tp)
             for tp in members_storage.members.values()
         ):
             return members_storage
@@ -110,7 +119,7 @@ class GenericResolver(Generic[K, M]):
                     if (
                         key in bases_members
                         and key not in members_storage.overriden
-                        and (is_generic(value) or isinstance(value, TypeVar))
+                        and (is_generic(value) or self._has_type_vars(value))
                     )
                     else value
                 )
